@@ -41,48 +41,309 @@ def lark_call_options() -> Dict[str, str]:
     return opts
 
 
+class _Other:
+    """the value of a word that is none of the string constants of the function: every `==` / `in` test
+    against a constant is false for it"""
+    def __repr__(self):
+        return "<any other word>"
+
+
+OTHER = _Other()
+TOK = ("the token argument",)
+
+
+class _Return(Exception):
+    def __init__(self, v):
+        self.v = v
+
+
+class _WordFn:
+    """Evaluator for `CELParser.ambiguous_literals`, a function Token -> Token whose only tests are
+    equality / membership of the token's text against string constants.  It is run once per string
+    constant of the code (and once for `OTHER`), which yields the function as a finite table
+    word -> token type, *whatever the control structure* (if/elif ladder, early returns, merged `or`
+    tests, `in (…)`, conditional expressions, `match`, a lookup table, a local for `t.value`, one or
+    two levels of helper functions).  Anything else the word could flow into (slicing, `.lower()`,
+    `startswith`, `len`, `<`, regexes, attributes other than `.value`) is outside the subset and raises
+    TranslationError, so a behaviour-changing edit cannot hide behind the extraction."""
+    POS_KW = {"start_pos", "line", "column", "end_line", "end_column", "end_pos"}
+
+    def __init__(self, module: ast.Module, cls: ast.ClassDef):
+        self.module, self.cls = module, cls
+        self.compared: set = set()
+
+    # -- names defined beside the function ------------------------------------------------------
+    def outer(self, name: str):
+        for body in (self.cls.body, self.module.body):
+            for n in body:
+                if isinstance(n, ast.FunctionDef) and n.name == name:
+                    return ("fn", n)
+                tgt = None
+                if isinstance(n, ast.Assign) and len(n.targets) == 1 and isinstance(n.targets[0], ast.Name):
+                    tgt, val = n.targets[0].id, n.value
+                elif isinstance(n, ast.AnnAssign) and isinstance(n.target, ast.Name) and n.value is not None:
+                    tgt, val = n.target.id, n.value
+                if tgt == name:
+                    return ("val", self.const(val))
+        raise TranslationError(f"ambiguous_literals: unknown name {name}")
+
+    def const(self, e):
+        if isinstance(e, ast.Call) and isinstance(e.func, ast.Name) and e.func.id in ("frozenset", "set", "tuple", "list", "dict") \
+                and len(e.args) == 1 and not e.keywords:
+            return {"frozenset": frozenset, "set": frozenset, "tuple": tuple, "list": list, "dict": dict}[e.func.id](self.const(e.args[0]))
+        try:
+            return ast.literal_eval(e)
+        except Exception:
+            raise TranslationError("ambiguous_literals: not a literal table: " + ast.unparse(e))
+
+    # -- expressions --------------------------------------------------------------------------------
+    def as_word(self, v, env):
+        return env["__word__"] if v is TOK else v
+
+    def eq(self, a, b, env) -> bool:
+        a, b = self.as_word(a, env), self.as_word(b, env)
+        for x in (a, b):
+            if isinstance(x, str):
+                self.compared.add(x)
+        if a is OTHER or b is OTHER:
+            return a is b
+        if isinstance(a, tuple) and a[:1] == ("newtok",) or isinstance(b, tuple) and b[:1] == ("newtok",):
+            raise TranslationError("ambiguous_literals: comparison of a constructed token")
+        return a == b
+
+    def contains(self, coll, x, env) -> bool:
+        if isinstance(coll, str) or not isinstance(coll, (tuple, list, frozenset, set, dict)):
+            raise TranslationError("ambiguous_literals: `in` over something that is not a tuple/list/set/dict of constants")
+        return any(self.eq(x, y, env) for y in coll)
+
+    def ev(self, e, env, depth):
+        if isinstance(e, ast.Constant):
+            return e.value
+        if isinstance(e, ast.Name):
+            if e.id in env:
+                return env[e.id]
+            k, v = self.outer(e.id)
+            if k != "val":
+                raise TranslationError(f"ambiguous_literals: function {e.id} used as a value")
+            return v
+        if isinstance(e, (ast.Tuple, ast.List)):
+            return tuple(self.ev(x, env, depth) for x in e.elts)
+        if isinstance(e, ast.Set):
+            return tuple(self.ev(x, env, depth) for x in e.elts)
+        if isinstance(e, ast.Dict):
+            if any(k is None for k in e.keys):
+                raise TranslationError("ambiguous_literals: ** in a dict display")
+            return {self.ev(k, env, depth): self.ev(v, env, depth) for k, v in zip(e.keys, e.values)}
+        if isinstance(e, ast.Attribute):
+            if isinstance(e.value, ast.Name) and e.value.id in ("CELParser", "cls", "self") and e.value.id not in env:
+                k, v = self.outer(e.attr)
+                if k == "val":
+                    return v
+                raise TranslationError(f"ambiguous_literals: function {e.attr} used as a value")
+            base = self.ev(e.value, env, depth)
+            if base is TOK and e.attr == "value":
+                return env["__word__"]
+            raise TranslationError("ambiguous_literals: attribute outside the subset: " + ast.unparse(e))
+        if isinstance(e, ast.BoolOp):
+            v = None
+            for x in e.values:
+                v = self.ev(x, env, depth)
+                if isinstance(e.op, ast.Or) and self.truth(v, env):
+                    return v
+                if isinstance(e.op, ast.And) and not self.truth(v, env):
+                    return v
+            return v
+        if isinstance(e, ast.UnaryOp) and isinstance(e.op, ast.Not):
+            return not self.truth(self.ev(e.operand, env, depth), env)
+        if isinstance(e, ast.IfExp):
+            return self.ev(e.body if self.truth(self.ev(e.test, env, depth), env) else e.orelse, env, depth)
+        if isinstance(e, ast.Compare):
+            left = self.ev(e.left, env, depth)
+            for op, r in zip(e.ops, e.comparators):
+                right = self.ev(r, env, depth)
+                if isinstance(op, ast.Eq):
+                    ok = self.eq(left, right, env)
+                elif isinstance(op, ast.NotEq):
+                    ok = not self.eq(left, right, env)
+                elif isinstance(op, ast.In):
+                    ok = self.contains(right, left, env)
+                elif isinstance(op, ast.NotIn):
+                    ok = not self.contains(right, left, env)
+                elif isinstance(op, (ast.Is, ast.IsNot)) and (left is None or right is None):
+                    other = right if left is None else left
+                    if other is TOK or other is OTHER or isinstance(other, (str, tuple, dict, list, frozenset)):
+                        ok = isinstance(op, ast.IsNot)
+                    else:
+                        ok = (other is None) == isinstance(op, ast.Is)
+                else:
+                    raise TranslationError("ambiguous_literals: comparison outside the subset: " + ast.unparse(e))
+                if not ok:
+                    return False
+                left = right
+            return True
+        if isinstance(e, ast.Subscript):
+            d = self.ev(e.value, env, depth)
+            k = self.as_word(self.ev(e.slice, env, depth), env)
+            if isinstance(d, dict):
+                for kk, vv in d.items():
+                    if self.eq(kk, k, env):
+                        return vv
+                raise TranslationError("ambiguous_literals: table lookup can raise KeyError")
+            raise TranslationError("ambiguous_literals: subscript outside the subset: " + ast.unparse(e))
+        if isinstance(e, ast.Call):
+            return self.call(e, env, depth)
+        raise TranslationError("ambiguous_literals: expression outside the subset: " + ast.unparse(e))
+
+    def truth(self, v, env) -> bool:
+        v = self.as_word(v, env)
+        if v is OTHER:
+            return True           # IDENT matches at least one character
+        if isinstance(v, tuple) and v[:1] == ("newtok",):
+            return True
+        return bool(v)
+
+    def call(self, e: ast.Call, env, depth):
+        f = e.func
+        # str(t)
+        if isinstance(f, ast.Name) and f.id == "str" and len(e.args) == 1 and not e.keywords:
+            v = self.ev(e.args[0], env, depth)
+            if v is TOK or v is OTHER or isinstance(v, str):
+                return self.as_word(v, env)
+        # Token(TYPE, t.value, [positions of t])  /  Token.new_borrow_pos(TYPE, t.value, t)
+        plain = isinstance(f, ast.Name) and f.id == "Token" and "Token" not in env
+        borrow = (isinstance(f, ast.Attribute) and f.attr == "new_borrow_pos" and isinstance(f.value, ast.Name)
+                  and f.value.id == "Token")
+        if plain or borrow:
+            names = ["type", "value"] if plain else ["type_", "value", "borrow_t"]
+            if len(e.args) > len(names):
+                raise TranslationError("ambiguous_literals: positional position arguments of Token(...)")
+            bound = {n: self.ev(a, env, depth) for n, a in zip(names, e.args)}
+            for kw in e.keywords:
+                if kw.arg is None:
+                    raise TranslationError("ambiguous_literals: ** in Token(...)")
+                if kw.arg in names and kw.arg not in bound:
+                    bound[kw.arg] = self.ev(kw.value, env, depth)
+                elif plain and kw.arg in self.POS_KW and isinstance(kw.value, ast.Attribute) \
+                        and self.ev(kw.value.value, env, depth) is TOK:
+                    pass      # positions are not part of the tree comparison; they come from the token itself
+                else:
+                    raise TranslationError(f"ambiguous_literals: Token(... {kw.arg}=…) outside the subset")
+            if set(bound) != set(names):
+                raise TranslationError("ambiguous_literals: Token(...) without type / value")
+            if borrow and bound["borrow_t"] is not TOK:
+                raise TranslationError("ambiguous_literals: new_borrow_pos does not borrow from the token itself")
+            ty, val = bound[names[0]], bound["value"]
+            if not isinstance(ty, str):
+                raise TranslationError("ambiguous_literals: token type is not a string constant")
+            val = self.as_word(val, env)
+            if val is not env["__word__"] and not (isinstance(val, str) and val == env["__word__"]):
+                raise TranslationError("ambiguous_literals: the new token does not keep the text of the old one")
+            return ("newtok", ty)
+        # TABLE.get(word[, default])
+        if isinstance(f, ast.Attribute) and f.attr == "get" and not e.keywords and 1 <= len(e.args) <= 2:
+            d = self.ev(f.value, env, depth)
+            if isinstance(d, dict):
+                k = self.ev(e.args[0], env, depth)
+                for kk, vv in d.items():
+                    if self.eq(kk, k, env):
+                        return vv
+                return self.ev(e.args[1], env, depth) if len(e.args) == 2 else None
+        # helper function defined beside ambiguous_literals (at most two levels)
+        name = None
+        if isinstance(f, ast.Name) and f.id not in env:
+            name = f.id
+        elif isinstance(f, ast.Attribute) and isinstance(f.value, ast.Name) and f.value.id in ("CELParser", "cls", "self"):
+            name = f.attr
+        if name is not None:
+            k, fn = self.outer(name)
+            if k == "fn" and depth < 2 and not e.keywords:
+                params = [a.arg for a in fn.args.args]
+                decos = {ast.unparse(d) for d in fn.decorator_list}
+                if decos - {"staticmethod"}:
+                    raise TranslationError(f"ambiguous_literals: helper {name} has decorators {sorted(decos)}")
+                if fn.args.vararg or fn.args.kwarg or fn.args.kwonlyargs or fn.args.defaults or len(params) != len(e.args):
+                    raise TranslationError(f"ambiguous_literals: helper {name}: parameters outside the subset")
+                env2 = {"__word__": env["__word__"]}
+                for pn, a in zip(params, e.args):
+                    env2[pn] = self.ev(a, env, depth)
+                return self.run(fn, env2, depth + 1)
+        raise TranslationError("ambiguous_literals: call outside the subset: " + ast.unparse(e))
+
+    # -- statements ---------------------------------------------------------------------------------
+    def block(self, stmts, env, depth):
+        for st in stmts:
+            if isinstance(st, ast.Expr) and isinstance(st.value, ast.Constant):
+                continue
+            if isinstance(st, ast.Pass):
+                continue
+            if isinstance(st, ast.Return):
+                raise _Return(None if st.value is None else self.ev(st.value, env, depth))
+            if isinstance(st, ast.If):
+                self.block(st.body if self.truth(self.ev(st.test, env, depth), env) else st.orelse, env, depth)
+                continue
+            if isinstance(st, ast.Assign) and len(st.targets) == 1 and isinstance(st.targets[0], ast.Name):
+                env[st.targets[0].id] = self.ev(st.value, env, depth)
+                continue
+            if isinstance(st, ast.AnnAssign) and isinstance(st.target, ast.Name) and st.value is not None:
+                env[st.target.id] = self.ev(st.value, env, depth)
+                continue
+            if isinstance(st, ast.Match):
+                subj = self.ev(st.subject, env, depth)
+                for case in st.cases:
+                    if self.pattern(case.pattern, subj, env, depth) and (case.guard is None or self.truth(self.ev(case.guard, env, depth), env)):
+                        self.block(case.body, env, depth)
+                        break
+                continue
+            raise TranslationError("ambiguous_literals: statement outside the subset: " + type(st).__name__)
+
+    def pattern(self, p, subj, env, depth) -> bool:
+        if isinstance(p, ast.MatchValue):
+            return self.eq(subj, self.ev(p.value, env, depth), env)
+        if isinstance(p, ast.MatchOr):
+            return any(self.pattern(q, subj, env, depth) for q in p.patterns)
+        if isinstance(p, ast.MatchAs) and p.pattern is None and p.name is None:
+            return True
+        raise TranslationError("ambiguous_literals: match pattern outside the subset")
+
+    def run(self, fn: ast.FunctionDef, env, depth):
+        try:
+            self.block(strip_doc(fn.body), env, depth)
+        except _Return as r:
+            return r.v
+        return None
+
+
 def ambiguous_literals() -> List[Tuple[str, str]]:
-    """`if t.value == "true": return Token("BOOL_LIT", t.value) elif …: … return t` -> [(word, type)]"""
+    """`CELParser.ambiguous_literals` as the table word -> new token type (sorted by word)"""
     m = parse("src/celpy/celparser.py")
     cls = find_class(m, "CELParser")
     f = find_func(cls.body, "ambiguous_literals")
-    arg = f.args.args[-1].arg
-    body = strip_doc(f.body)
+    decos = {ast.unparse(d) for d in f.decorator_list}
+    params = [a.arg for a in f.args.args]
+    if "staticmethod" not in decos:
+        params = params[1:]
+    if decos - {"staticmethod", "classmethod"} or len(params) != 1 or f.args.vararg or f.args.kwarg or f.args.kwonlyargs:
+        raise TranslationError("ambiguous_literals: signature outside the subset")
+    w = _WordFn(m, cls)
+    # candidate words: every string constant of the class and of the module-level tables / helpers
+    words = sorted({n.value for n in ast.walk(m) if isinstance(n, ast.Constant) and isinstance(n.value, str)
+                    and re.fullmatch(r"[_a-zA-Z][_a-zA-Z0-9]*", n.value)})
     pairs: List[Tuple[str, str]] = []
-
-    def is_value(e) -> bool:
-        return isinstance(e, ast.Attribute) and e.attr == "value" and isinstance(e.value, ast.Name) and e.value.id == arg
-
-    def ladder(stmts):
-        for i, st in enumerate(stmts):
-            if isinstance(st, ast.If):
-                t = st.test
-                if not (isinstance(t, ast.Compare) and len(t.ops) == 1 and isinstance(t.ops[0], ast.Eq)
-                        and is_value(t.left) and isinstance(t.comparators[0], ast.Constant)
-                        and isinstance(t.comparators[0].value, str)):
-                    raise TranslationError("ambiguous_literals: test is not `t.value == \"…\"`: " + ast.unparse(t))
-                if not (len(st.body) == 1 and isinstance(st.body[0], ast.Return)):
-                    raise TranslationError("ambiguous_literals: branch is not a single return")
-                r = st.body[0].value
-                plain = (isinstance(r, ast.Call) and isinstance(r.func, ast.Name) and r.func.id == "Token"
-                         and len(r.args) == 2)
-                # Token.new_borrow_pos(type, value, borrow_t): same type and value, positions copied from t
-                borrow = (isinstance(r, ast.Call) and isinstance(r.func, ast.Attribute) and r.func.attr == "new_borrow_pos"
-                          and isinstance(r.func.value, ast.Name) and r.func.value.id == "Token" and len(r.args) == 3
-                          and isinstance(r.args[2], ast.Name) and r.args[2].id == arg)
-                if not ((plain or borrow) and not r.keywords and isinstance(r.args[0], ast.Constant) and is_value(r.args[1])):
-                    raise TranslationError("ambiguous_literals: return is not Token(\"TYPE\", t.value): " + ast.unparse(r))
-                pairs.append((t.comparators[0].value, r.args[0].value))
-                ladder(st.orelse)
-            elif isinstance(st, ast.Return):
-                if not (isinstance(st.value, ast.Name) and st.value.id == arg):
-                    raise TranslationError("ambiguous_literals: final return is not the token itself")
-                if i != len(stmts) - 1:
-                    raise TranslationError("ambiguous_literals: statements after return")
-            else:
-                raise TranslationError("ambiguous_literals: unsupported statement " + type(st).__name__)
-    ladder(body)
-    return pairs
+    for word in words + [OTHER]:
+        r = w.run(f, {params[0]: TOK, "__word__": word}, 0)
+        if r is TOK:
+            continue
+        if isinstance(r, tuple) and r[:1] == ("newtok",):
+            if word is OTHER:
+                raise TranslationError("ambiguous_literals: retypes words beyond a finite list")
+            pairs.append((word, r[1]))
+            continue
+        raise TranslationError(f"ambiguous_literals: returns something that is neither the token nor a new token for {word!r}")
+    # (a constant that is not of the form of an identifier can never equal the text of an IDENT token)
+    missing = {c for c in w.compared if isinstance(c, str) and re.fullmatch(r"[_a-zA-Z][_a-zA-Z0-9]*", c)} - set(words)
+    if missing:
+        raise TranslationError(f"ambiguous_literals: compares with {sorted(missing)[:3]}, which were not enumerated")
+    return sorted(pairs)
 
 
 class _Capture(logging.Handler):
